@@ -18,7 +18,6 @@ func (m *Machine) hook(name string) *ssa.Function {
 	return m.cfg.HarnessPkg.Func(name)
 }
 
-func (m *Machine) access(c *Cell, write bool) {}
 
 func termOf(v Value) *Term { return v.(*Term) }
 
